@@ -195,6 +195,10 @@ func suitePathGuard(c *Ctx) error {
 		add("/", d+"/.../"+missing, "component of three dots (inside)")
 		add("/", d+"/..x.db", "leaf starting with two dots (inside)")
 		add("/", d+"/.hidden/"+missing, "hidden component (inside)")
+		// the same location named through procfs: /proc/<pid>/root and /proc/<pid>/cwd are symlinks like any other
+		add("/", "/proc/self/root"+d+"/"+missing, "through /proc/self/root (inside)")
+		add("/", fmt.Sprintf("/proc/%d/root%s/%s", os.Getpid(), d, missing), "through /proc/<own pid>/root (inside)")
+		add("/", fmt.Sprintf("/proc/%d/cwd/%s/%s", os.Getpid(), d[1:], missing), "through /proc/<own pid>/cwd with cwd / (inside)")
 	}
 	add("/etc", "passwd", "relative to an EXISTING entry, cwd inside /etc")
 	add("/etc", "../etc/passwd", "relative with .., existing")
